@@ -181,6 +181,7 @@ def _bodies() -> list[list[Any]]:
         [M.Raw("r")],
         [M.Incr("c1")],
         [M.Text(" "), M.Capture("cap1", [M.Text("q")]), M.Text("\n")],
+        [M.Text(" "), M.LiquidTag([M.Assign("z", M.Filt(M.Lit(3)))]), M.Text(" ")],
     ]
 
 
@@ -282,7 +283,7 @@ def lookalike_family(ctx: Ctx, spec: dict[str, Any]) -> None:
                     return M.Text(t)
 
         def markup(depth: int = 0) -> Any:
-            k = rng.randrange(5 if depth == 0 else 3)
+            k = rng.randrange(9 if depth == 0 else 7)
             if k == 0:
                 return M.Out(M.Filt(M.Var("v")))
             if k == 1:
@@ -290,6 +291,20 @@ def lookalike_family(ctx: Ctx, spec: dict[str, Any]) -> None:
             if k == 2:
                 return M.Comment("inline", " note ")
             if k == 3:
+                # a block comment whose text holds commented-out tags with markers of their own
+                return M.Comment("block", rng.choice([
+                    "{% comment -%}x{% endcomment %}", " {% comment %} y {% endcomment -%} ",
+                    "{%- comment ~%}{%+ endcomment +%}", "{% raw -%} r {% endraw ~%}",
+                    " a {% raw %}{% endcomment -%}{% endraw -%} b ", "{% comment -%}{% comment ~%}z{% endcomment %}{% endcomment +%}",
+                ]))
+            if k == 4:
+                # a case without branches, or whose branches are not taken
+                return M.Case(M.Var("v"), [] if rng.random() < 0.6 else [([M.Lit("nope")], [text()])], None)
+            if k == 5:
+                return M.LiquidTag([M.Assign("z", M.Filt(M.Lit(2)))])
+            if k == 6:
+                return M.Out(M.Filt(M.Var("z")))
+            if k == 7:
                 return M.If([(M.Truthy(M.Lit(True)), [text(), markup(1), text()])], None)
             return M.For("i", M.Var("two"), [text(), markup(1)])
 
